@@ -356,6 +356,7 @@ type wktCase struct {
 	Toks  []wtok `json:"toks"`
 	Plain bool   `json:"plain"`
 	Text  string `json:"text"` // when set (arbitrary strings), toks are ignored
+	Weak  bool   `json:"weak"` // not a grammatical string: only verdict / totality are compared
 }
 
 func wktHandler(raw json.RawMessage) map[string]any {
@@ -386,6 +387,7 @@ func wktHandler(raw json.RawMessage) map[string]any {
 	}
 	obs["want"] = want
 	obs["hastoks"] = c.Text == ""
+	obs["weak"] = c.Weak
 	if c.Text == "" {
 		obs["toks"] = c.Toks
 	} else {
